@@ -1076,12 +1076,12 @@ func (a *Assembler) cleanSG(half *halfconnection, ac AssemblerContext) {
 		preConvertLen := r.length()
 		first, last, nb := r.convertToPages(a.pc, skip, ac)
 
-		// Update skip count as we move from one container to the next.
-		if delta := preConvertLen - r.length(); delta > skip {
-			skip = 0
-		} else {
-			skip -= delta
-		}
+		// skip is an offset into the first kept container only. A live
+		// packet does not shrink when it is converted (preConvertLen ==
+		// r.length()), so deriving the remaining skip from the length
+		// change kept applying it to every following container.
+		_ = preConvertLen
+		skip = 0
 
 		if half.saved == nil {
 			half.saved = first
